@@ -5,19 +5,24 @@ TRUST = ["CPython 3.12, sqlite3/SQLite 3.40 (atomic commit, recovery), Twisted T
          "process death only (no power loss); event interleavings are sequences (single-threaded server)"]
 
 H = "mon.checks.histcheck"
+COMMON_TAIL = ' Random histories also contain: connections whose closing handshake has begun but whose loss the server has not seen yet, every way a connection can end (clean with or without a close code, abrupt, dropped by the server on a ping timeout), connections that never complete the handshake, binds with a malformed client_version (not judged themselves), and - in half of the histories - identifiers that differ only in Unicode normalisation form / letter case / blanks and non-printables, are empty, or carry formatting characters; every fourth history runs on older database files (schema snapshots, usage db still at version 1).'
 
 CHECKS = {
     "C01": dict(module=H, level="exploration",
                 rule="Directed scenario families, then seeded random symbolic histories (bind/allocate/claim/release/open/add/close/"
                      "drop/time advance through the real timer/restart over 2 apps, 3 shared sides, tiny name and mailbox pools) "
                      "executed on the real service on real SQLite files; every open is judged by the replay-set oracle "
-                     "(unique message bodies).",
+                     "(unique message bodies). Also: families after_cross_app_failure, scale (520 stored messages, 1 MiB bodies), deleted-under-subscriber; "
+                     "deferred-work jobs (reactor.callLater on a private clock, run one command late or in bursts) judged by a duplicate / lost-add monitor; "
+                     "fixture pairs (files with content written by the reference tree vs files the tree wrote itself)." + COMMON_TAIL,
                 nontrivial_rule="a history counts if at least one open replayed a non-empty stored set; distinct by hash of the symbolic history.",
                 floors={"quick": {"c01_replay": 200, "c01_replay_nonempty": 20}}),
     "C02": dict(module=H, level="exploration",
                 rule="Same engine; every add is judged by the exactly-once fan-out oracle over subscription intervals of all live connections; "
                      "histories include connections whose websocket closing handshake has begun but whose loss the server has not seen yet "
-                     "(sending to them raises, as in autobahn), and four real-process runs over TCP reproduce that window with SIGSTOP/SIGCONT.",
+                     "(sending to them raises, as in autobahn), and four real-process runs over TCP reproduce that window with SIGSTOP/SIGCONT; five more real-process runs "
+                     "exercise a 1.5 MB frame, pipelined and dribbled frames, HTTP requests on the websocket port and an idle unbound connection. Families c02_fanout "
+                     "(with ghost connections and malformed binds), c02_closing, scale, after_cross_app_failure, deleted-under-subscriber; deferred-work and fixture jobs as in C01." + COMMON_TAIL,
                 nontrivial_rule="a history counts if an add reached at least one subscribed connection; distinct by history hash.",
                 floors={"quick": {"c02_fanout": 200, "c02_fanout_subscribed": 100, "c02_fanout_next_to_closing_subscriber": 20,
                                   "wire_closing_case": 4, "wire_transport_case": 5}}),
